@@ -464,6 +464,10 @@ func syncCloneTable(repo string) (string, string, error) {
 		}
 		return true
 	})
+	prologue, err := doPrologue(repo)
+	if err != nil {
+		return "", "", err
+	}
 	tlsWritten, err := tlsWrittenFields(repo)
 	if err != nil {
 		return "", "", err
@@ -568,7 +572,7 @@ func syncCloneTable(repo string) (string, string, error) {
 		"   slices: Cookies, roundTripWrappers, httpRoundTripWrappers, udBeforeRequest, afterResponse, t2.Settings, t2.PriorityFrames\n" +
 		"   maps:   Headers, QueryParams, FormData, PathParams;  t_rt: retryOption;  t_scal: the value-typed settings\n" +
 		"   (by key, Model/Settings.v) Clone carries over *)\n" +
-		"From Coq Require Import List String.\nFrom ReqV Require Import Model.Settings.\nImport ListNotations.\n" +
+		"From Coq Require Import List String.\nFrom ReqV Require Import Model.Settings Model.ReExec.\nImport ListNotations.\n" +
 		"Definition gen_tbl : ctbl :=\n  {| t_sl := [" + strings.Join(sl, "; ") + "];\n     t_mp := [" + strings.Join(mp, "; ") + "];\n     t_rt := " + b(clientDeep["retryOption"]) + ";\n" +
 		"     t_scal := [" + strings.Join(scal, "; ") + "];\n" +
 		"     t_jar := " + b(jarInit) + "; t_dopt := " + b(clientDeep["dumpOptions"]) + "; t_dumper := " + b(optionsCloned && dumperCloned) + "; t_link := " + b(dumpLink) + ";\n" +
@@ -585,7 +589,9 @@ func syncCloneTable(repo string) (string, string, error) {
 		"(* Transport.Clone calls t.reinstallTLSFingerprint(tt) *)\n" +
 		"Definition gen_fingerprint_reinstalled : bool := " + b(fpReinstall) + ".\n" +
 		"(* fields of a *tls.Config that client.go / transport.go write or extend in place *)\n" +
-		"Definition gen_tls_written_fields : list string := " + strs(tlsWritten) + ".\n"
+		"Definition gen_tls_written_fields : list string := " + strs(tlsWritten) + ".\n" +
+		"(* Request.do starts with r.unmergeClientSettings(); unmergeClientSettings returns before its resets *)\n" +
+		"Definition gen_prologue : prologue := {| p_called := " + b(prologue[0]) + "; p_fastpath := " + b(prologue[1]) + " |}.\n"
 	return "CloneTable.v", out, nil
 }
 
@@ -653,5 +659,67 @@ func tlsWrittenFields(repo string) ([]string, error) {
 		out = append(out, k)
 	}
 	sort.Strings(out)
+	return out, nil
+}
+
+// doPrologue reads request.go: (1) is the first statement of Request.do the call r.unmergeClientSettings()?
+// (2) does unmergeClientSettings contain a return statement before it has, at top level and unconditionally,
+// cleared r.clientMerged, r.clientFormDataMerged and r.RetryAttempt (a fast path that skips the resets)?
+func doPrologue(repo string) ([2]bool, error) {
+	var out [2]bool
+	fs := token.NewFileSet()
+	f, err := parser.ParseFile(fs, filepath.Join(repo, "request.go"), nil, 0)
+	if err != nil {
+		return out, err
+	}
+	var do, un *ast.FuncDecl
+	for _, d := range f.Decls {
+		if fd, ok := d.(*ast.FuncDecl); ok && fd.Recv != nil && fd.Body != nil {
+			switch fd.Name.Name {
+			case "do":
+				do = fd
+			case "unmergeClientSettings":
+				un = fd
+			}
+		}
+	}
+	if do == nil || un == nil {
+		return out, fmt.Errorf("request.go: Request.do / Request.unmergeClientSettings not found; Model/ReExec.v must be revisited")
+	}
+	if len(do.Body.List) > 0 {
+		if es, ok := do.Body.List[0].(*ast.ExprStmt); ok {
+			if c, ok := es.X.(*ast.CallExpr); ok {
+				if sel, ok := c.Fun.(*ast.SelectorExpr); ok && sel.Sel.Name == "unmergeClientSettings" {
+					out[0] = true
+				}
+			}
+		}
+	}
+	reset := map[string]bool{}
+	for _, st := range un.Body.List {
+		if len(reset) < 3 {
+			hasReturn := false
+			ast.Inspect(st, func(n ast.Node) bool {
+				if _, ok := n.(*ast.ReturnStmt); ok {
+					hasReturn = true
+				}
+				return true
+			})
+			if hasReturn {
+				out[1] = true
+			}
+		}
+		if as, ok := st.(*ast.AssignStmt); ok && len(as.Lhs) == 1 {
+			if sel, ok := as.Lhs[0].(*ast.SelectorExpr); ok {
+				switch sel.Sel.Name {
+				case "clientMerged", "clientFormDataMerged", "RetryAttempt":
+					reset[sel.Sel.Name] = true
+				}
+			}
+		}
+	}
+	if len(reset) < 3 {
+		return out, fmt.Errorf("request.go: unmergeClientSettings no longer resets clientMerged, clientFormDataMerged and RetryAttempt at top level; Model/ReExec.v must be revisited")
+	}
 	return out, nil
 }
